@@ -1,6 +1,6 @@
-(* C02: the exact-tag statement is false of the faithful model (finding F12,
-   class kf_c02_1): concrete witness; and examples showing that the hypotheses of
-   the C02 / C06 theorems are satisfiable by non-trivial states. *)
+(* C02: the exact-tag statement (refuted in Findings/C02_KF1.v: finding F12, class
+   kf_c02_1) and examples showing that the hypotheses of the C02 theorems are
+   satisfiable by non-trivial states. *)
 From Coq Require Import List NArith ZArith Bool Lia Arith.
 From RecordUpdate Require Import RecordUpdate.
 From WV Require Import Lib.PyBytes Lib.Regex Gen.GenRegex Model.Receiver Model.UrlSplit Model.Parser Model.ChanSeq
@@ -26,32 +26,10 @@ Definition bytewise (s : bytes) : list bytes := map (fun b => [b]) s.
 Lemma bytewise_concat s : concat (bytewise s) = s.
 Proof. unfold bytewise. induction s as [|b s IH]; [reflexivity|]. cbn [map concat app]. now rewrite IH. Qed.
 
-Lemma f12_whole :
-  map ev_err (cut (snd (feed_tr false adj10 chan_init [f12_stream]))) = [Some (Some EBodyTooLarge)].
-Proof. vm_compute. reflexivity. Qed.
-
-Lemma f12_bytes :
-  map ev_err (cut (snd (feed_tr false adj10 chan_init (bytewise f12_stream)))) = [Some (Some EInvalidChunkSize)].
-Proof. vm_compute. reflexivity. Qed.
-
-(* the statement with exact error tags ... *)
+(* the statement with exact error tags (false of the code: see Findings/C02_KF1.v) *)
 Definition split_independent_exact : Prop :=
   forall a reads1 reads2, concat reads1 = concat reads2 ->
     cut (snd (feed_tr false a chan_init reads1)) = cut (snd (feed_tr false a chan_init reads2)).
-
-(* ... is refuted: 413 in one read, 400 byte-wise *)
-Lemma split_independent_exact_refuted : ~ split_independent_exact.
-Proof.
-  intros H. specialize (H adj10 [f12_stream] (bytewise f12_stream)).
-  rewrite bytewise_concat in H. cbn [concat] in H. rewrite app_nil_r in H. specialize (H eq_refl).
-  pose proof f12_whole as A. pose proof f12_bytes as B. rewrite H in A. rewrite A in B. discriminate.
-Qed.
-
-(* with the abstraction of the theorem both runs are observed alike *)
-Example f12_abstracted :
-  map ev_err (cut (snd (feed_tr true adj10 chan_init [f12_stream]))) =
-  map ev_err (cut (snd (feed_tr true adj10 chan_init (bytewise f12_stream)))).
-Proof. vm_compute. reflexivity. Qed.
 
 (* ------------------------------------------------------------------ *)
 (* non-trivial states satisfying the hypotheses *)
